@@ -21,6 +21,7 @@ structure DState where
   ndiff : Nat := 0
   nops : Nat := 0
   pending : Option (Nat × List String × String) := none  -- arena, op words, raw op text
+  tol : Bool := false   -- mode `odt`: tolerant metrics comparison
 
 def sections (s : String) : List String :=
   (s.splitOn " | ").map (fun x => x.trimAscii.toString)
@@ -37,12 +38,39 @@ def modelObs (a : Arena) (ret : String) (logBefore stepsBefore : Nat) : List Str
 
 def sectionNames : List String := ["ret", "ev", "steps", "snap", "met"]
 
-def compareObs (od : Bool) (impl model : List String) : Option (String × String × String) :=
+/-- `key=value` fields of a metrics section. -/
+def metFields (s : String) : List (String × String) :=
+  (words s).filterMap (fun w => match w.splitOn "=" with
+    | [k, v] => some (k, v)
+    | _ => none)
+
+/-- Tolerant comparison of two metrics sections (mode `odt`, decimal pacing): counters must be
+    equal; the amounts `wake`, `art`, `debt` — exact rationals in the model, f64 in the
+    implementation (printed as the exact rational each f64 is) — must agree within
+    `2^-30 * max(1, |model value|)`. -/
+def metClose (impl model : String) : Bool :=
+  let fi := metFields impl
+  let fm := metFields model
+  fi.length == fm.length && (fi.zip fm).all (fun ((ki, vi), (km, vm)) =>
+    ki == km &&
+      (if ki == "wake" || ki == "art" || ki == "debt" then
+        match parseRat vi, parseRat vm with
+        | some a, some b =>
+          let d := if a ≤ b then b - a else a - b
+          let scale : Rat := if (if b < 0 then -b else b) ≤ 1 then 1 else (if b < 0 then -b else b)
+          decide (d * 1073741824 ≤ scale)
+        | _, _ => vi == vm
+      else vi == vm))
+
+/-- Modes: `sd` compares everything exactly; `od` skips `met` and `steps` (oracle-driven);
+    `odt` is `od` with the tolerant metrics comparison. -/
+def compareObs (od : Bool) (impl model : List String) (tol : Bool := false) : Option (String × String × String) :=
   let rec go (ns im mo : List String) : Option (String × String × String) :=
     match ns, im, mo with
     | n :: ns, i :: im, m :: mo =>
-      let skip := od && (n = "met" || n = "steps")
-      if !skip && i ≠ m then some (n, i, m) else go ns im mo
+      let skip := od && (n = "steps" || (n = "met" && !tol))
+      let same := if tol && n = "met" then metClose i m else i == m
+      if !skip && !same then some (n, i, m) else go ns im mo
     | [], [], [] => none
     | _, _, _ => some ("shape", toString impl.length, toString model.length)
   go sectionNames impl model
@@ -72,7 +100,7 @@ def handleObs (od : Bool) (st : DState) (lineNo : Nat) (obs : String) : IO DStat
         let arenas := if ai < st.arenas.size then st.arenas.set! ai (some a)
           else (st.arenas ++ Array.replicate (ai - st.arenas.size) none).push (some a)
         let model := modelObs a "ok" 0 0
-        match compareObs od impl model with
+        match compareObs od impl model st.tol with
         | some (s, i, m) => report s i m
         | none => return { st with arenas := arenas, ops := st.ops + 1, nops := st.nops + 1 }
     | _ =>
@@ -86,7 +114,7 @@ def handleObs (od : Bool) (st : DState) (lineNo : Nat) (obs : String) : IO DStat
           let sb := a.ctx.steps.length
           let (a', ret) := a.step op
           let model := modelObs a' ret lb sb
-          match compareObs od impl model with
+          match compareObs od impl model st.tol with
           | some (s, i, m) => report s i m
           | none =>
             return { st with arenas := st.arenas.set! ai (some a'), ops := st.ops + 1,
@@ -120,6 +148,7 @@ partial def loop (od : Bool) (h : IO.FS.Stream) (st : DState) (lineNo : Nat) : I
 
 def main (args : List String) : IO UInt32 := do
   let od := args.head? != some "sd"
-  let st ← loop od (← IO.getStdin) {} 1
-  IO.println s!"summary mode={if od then "od" else "sd"} sequences={st.nseq} ops={st.nops} diffs={st.ndiff}"
+  let tol := args.head? == some "odt"
+  let st ← loop od (← IO.getStdin) { tol := tol } 1
+  IO.println s!"summary mode={args.head?.getD "od"} sequences={st.nseq} ops={st.nops} diffs={st.ndiff}"
   return (if st.ndiff = 0 then 0 else 1)
